@@ -39,7 +39,7 @@ ASSUMED = [
     "the model as finite tables",
     "mean and stdev are opaque functions of the None-free list; the implementation's float is identified with the "
     "reference value when they agree to a relative tolerance of 1e-12",
-    "per-group aggregates (group_agg_skips_none) are checked with C12",
+    "per-group aggregates: the theorem group_agg_skips_none is about C12's model (tied there); here the \"group\" stream checks aggregate / window against Python's reduction of each group's None-free values, by the oracle alone",
 ]
 
 H = float.hex
@@ -218,6 +218,21 @@ def streams(rng, tier):
         for c in rng.sample(cand, min(len(cand), 300 if not thorough else 3000)):
             lived.append(dict(c, lived=rng.randrange(1 << 30)))
     out.append(("lived-in", lived))      # the same cases on lived-in operands (values.lived_in)
+    # ---- per-group aggregates: every None placement x how the rows fall into groups (one group, one row per group,
+    # pairs, alternating), through aggregate and through window.  Decided by the oracle alone (the reference is Python's
+    # own reduction of each group's None-free values); the grouping itself is C12's.
+    grp = []
+    for ty in ("int", "float", "bool", "Fr", "Dec", "str", "date", "td"):
+        for mask in MASKS:
+            n = len(mask)
+            for pat in ("one", "each", "pairs", "alt"):
+                keys = {"one": [0] * n, "each": list(range(n)), "pairs": [i // 2 for i in range(n)],
+                        "alt": [i % 2 for i in range(n)]}[pat]
+                if n <= 1 and pat != "one":
+                    continue
+                grp.append(_typed({"op": "grp", "fn": "group", "a": _vals(rng, ty, mask), "keys": keys, "pat": pat,
+                                   "window": rng.random() < 0.4}, ty))
+    out.append(("group", grp))
     return [(name, c05._dedupe(cases)) for name, cases in out]
 
 
@@ -514,6 +529,61 @@ def _obs_na(case):
     return o
 
 
+GRP_FNS = ["sum", "mean", "min", "max", "count", "stdev"]
+
+
+def _grp_same(x, y):
+    import math
+    if x is None or y is None:
+        return x is None and y is None
+    if isinstance(y, float) and isinstance(x, (int, float)) and not isinstance(x, bool):
+        return math.isclose(x, y, rel_tol=1e-9, abs_tol=1e-12)
+    return x == y
+
+
+def _obs_grp(case):
+    """aggregate / window of ONE value column over ONE key column, one call per function.  The reference: the groups
+    in first-appearance order, each reduced by Python over its None-free values in row order."""
+    from serif import Table, Vector
+    a = [V.dec(t) for t in case["a"]]
+    keys = case["keys"]
+    v = _mk(case, a).copy()
+    v.name = "v"
+    t = Table([Vector(list(keys), name="k"), v])
+    order = list(dict.fromkeys(keys))
+    groups = {k: [x for kk, x in zip(keys, a) if kk == k and x is not None] for k in order}
+    bad, ran = [], []
+    for fn in GRP_FNS:
+        try:
+            if fn == "count":
+                ref = {k: len(g) for k, g in groups.items()}
+            elif fn == "stdev":
+                import statistics
+                ref = {k: (statistics.stdev(g) if len(g) >= 2 else None) for k, g in groups.items()}
+            else:
+                ref = {k: _ref_reduce(fn, g) for k, g in groups.items()}
+        except Exception:                                    # noqa: BLE001  Python does not define it on these values
+            continue
+        want = [ref[k] for k in (keys if case["window"] else order)]
+        try:
+            r = (t.window if case["window"] else t.aggregate)(over=t.k, **{fn + "_over": t.v})
+            got = list(r.cols()[-1])
+        except Exception as e:                               # noqa: BLE001
+            try:                                             # the same call on the rows that hold a value
+                rows = [(k, x) for k, x in zip(keys, a) if x is not None]
+                t2 = Table([Vector([k for k, _ in rows], name="k"), c05._mkvec_fresh([x for _, x in rows], case.get("adt")).alias("v")
+                            if hasattr(Vector, "alias") else Vector([x for _, x in rows], name="v")])
+                (t2.window if case["window"] else t2.aggregate)(over=t2.k, **{fn + "_over": t2.v})
+            except Exception:                                # noqa: BLE001  serif does not define it on these values at all
+                continue
+            bad.append(f"{fn}: raises {type(e).__name__}: {e} (it does not on the rows that hold a value)"[:200])
+            continue
+        ran.append(fn)
+        if len(got) != len(want) or not all(_grp_same(x, y) for x, y in zip(got, want)):
+            bad.append(f"{fn}: gives {got!r}; Python's reduction of each group's None-free values gives {want!r}"[:300])
+    return {"bad": bad, "ran": ran}
+
+
 def observe(case):
     try:
         op = case["op"]
@@ -521,7 +591,7 @@ def observe(case):
             return c05.observe(case)
         c05._LIVED = case.get("lived")
         before = V.LIVED_REALISED[0]
-        o = {"cmp": _obs_cmp, "red": _obs_red, "na": _obs_na}[op](case)
+        o = {"cmp": _obs_cmp, "red": _obs_red, "na": _obs_na, "grp": _obs_grp}[op](case)
         if c05._LIVED is not None:
             o["lived_ok"] = V.LIVED_REALISED[0] > before
         return o
@@ -554,6 +624,8 @@ def emit(case, obs):
     if "skip" in obs:
         return "KSkip"
     op = case["op"]
+    if op == "grp":
+        return "KSkip"
     if op in ("bin", "un"):
         t = c05.emit(case, obs)
         return {"CSkip": "KSkip", "CBad": "KBad"}.get(t, f"KArith ({t})")
@@ -668,6 +740,11 @@ def oracle(case, obs):
         if obs["schema"] != ["KBool", False]:
             return f"cmp-dtype: {_w(case)} reports {obs['schema']}, not a non-nullable bool vector"
         return None
+    if op == "grp":
+        if obs["bad"]:
+            return (f"group-aggregate-none: {'window' if case['window'] else 'aggregate'} of {case['a']} over keys "
+                    f"{case['keys']}: {obs['bad'][0]}")
+        return None
     if op == "red":
         if case["fn"] == "len":
             if "exc" in obs or obs["res"] != len(case["a"]):
@@ -752,6 +829,8 @@ def describe(case, obs, stream):
 def _describe(case, obs, stream):
     if "skip" in obs:
         return [f"{stream}:skipped"]
+    if case["op"] == "grp":
+        return [f"group:{case['pat']}:{'window' if case['window'] else 'aggregate'}"] + [f"group:fn:{f}" for f in obs.get("ran", [])]
     ref = obs.get("ref")
     tail = "exc" if "exc" in obs else ("undefined" if ref == "undefined" or (isinstance(ref, list) and ref and ref[0] == "undefined")
                                        else ("mismatch" if ref == "mismatch" else "defined"))
